@@ -141,8 +141,9 @@ class Runner:
                 continue
             os.makedirs(rdir, exist_ok=True)
             path = os.path.join(rdir, key + '.json')
+            rcase = (f.get('detail') or {}).get('replay_case') or case
             with open(path, 'w') as fh:
-                json.dump(jsonable(dict(property=self.pid, case=case, failure=f)), fh, indent=1)
+                json.dump(jsonable(dict(property=self.pid, case=rcase, failure=f)), fh, indent=1)
             print('VIOLATION property=%s replay=%s' % (self.pid, path))
             print('   what: %s' % f['what'])
             d = json.dumps(f.get('detail'))
